@@ -126,6 +126,16 @@ def _few_rows_for_clusters(sess, rnd):
     return ("fit", (dec, rew, ctx))
 
 
+def _few_rows_other_width(sess, rnd):
+    """Rejected for too few rows, and the batch has another number of features (one <-> several) than the fitted model."""
+    npol = sess.cfg.get("np")
+    if not npol or npol[0] != "Clusters" or not sess.fitted or sess.d is None:
+        return None
+    n = npol[1]["n_clusters"] - 1
+    dec, rew, ctx = _split(_rows(sess, rnd, n, d=(1 if sess.d > 1 else 2)), True)
+    return ("fit", (dec, rew, ctx))
+
+
 def _few_rows_first_partial_fit(sess, rnd):
     """The first training call is a partial_fit that fails INSIDE training (it acts as fit)."""
     npol = sess.cfg.get("np")
@@ -186,6 +196,7 @@ for _k in ("fit", "partial_fit"):
 CATALOGUE.update({
     "partial_fit.other_column_count": _other_columns("partial_fit"),
     "fit.fewer_rows_than_clusters": _few_rows_for_clusters,
+    "fit.fewer_rows_than_clusters_other_width": _few_rows_other_width,
     "partial_fit.first_call_fewer_rows_than_clusters": _few_rows_first_partial_fit,
     "predict.before_fit": _before_fit("predict"),
     "predict_expectations.before_fit": _before_fit("predict_expectations"),
@@ -342,6 +353,10 @@ def generate(rnd, tier, index=0):
     if rnd.random() < 0.5:
         cont.append({"op": "partial_fit", "rows": rows(rnd.randint(1, 4))})
         cont.append({"op": "expect", "Q": Q})
+    if ctxl and rnd.random() < 0.5:
+        # "every later sequence of calls": one context handed over as a pandas Series (its interpretation as one row or
+        # one column depends on what the bandit remembers about the number of features)
+        cont.append({"op": "expect", "Q": [Q[0]], "container": "series_auto"})
     return {"cfg": cfg, "ops": prefix, "entry": entry, "eseed": rnd.randrange(2 ** 30), "cont": cont, "pos": pos}
 
 
@@ -444,7 +459,7 @@ def execute(case, ctx):
                 pass
             return
         ctx.fired("fault.rejected_call")
-        if entry in ("partial_fit.other_column_count", "fit.fewer_rows_than_clusters",
+        if entry in ("partial_fit.other_column_count", "fit.fewer_rows_than_clusters", "fit.fewer_rows_than_clusters_other_width",
                      "partial_fit.first_call_fewer_rows_than_clusters"):
             ctx.fired("fault.shape_error_inside_training")
         ctx.fired("oracle.comparisons")
@@ -466,8 +481,8 @@ def execute(case, ctx):
         step = n0 + 1 + j
         ctx.ev("op", "cont-" + op["op"], step)
         ctx.fired("ops")
-        rp = P.apply(op)
-        rr = R.apply(op)
+        rp = P.apply(op, container=op.get("container", "list"))
+        rr = R.apply(op, container=op.get("container", "list"))
         if rp[0] == "ok" and op["op"] in ("fit", "partial_fit"):
             ctx.fired("ops.train")
         ctx.fired("oracle.comparisons")
